@@ -138,3 +138,54 @@ package msgpackpatch
 //@   before Encoder.EncodeMapLen [map_header_is_field_count] arg1 == len(s.MapFields) && s.Kind == KindMap
 //@   ensures[array_header_written_by_the_encoder] old(s.Kind) == KindArray ==> calls("Encoder.EncodeArrayLen") == old(calls("Encoder.EncodeArrayLen")) + 1
 //@   ensures[map_header_written_by_the_encoder] old(s.Kind) == KindMap ==> calls("Encoder.EncodeMapLen") == old(calls("Encoder.EncodeMapLen")) + 1
+
+// ---------------------------------------------------------------------------------------
+// MessagePack lead-byte classification (property C13), against the format specification
+// (https://github.com/msgpack/msgpack/blob/master/spec.md), for all 256 byte values:
+//   fixmap 0x80-0x8f, fixarray 0x90-0x9f, fixstr 0xa0-0xbf, positive fixint 0x00-0x7f, negative fixint
+//   0xe0-0xff; map16/32 0xde/0xdf, array16/32 0xdc/0xdd, str8/16/32 0xd9/0xda/0xdb,
+//   uint8..64 0xcc-0xcf, int8..64 0xd0-0xd3, float32/64 0xca/0xcb.
+//@ func isFixMap(c) (r)
+//@   property C13
+//@   nopanic
+//@   ensures[spec] r <==> (c >= 128 && c <= 143)
+//@ func isFixArray(c) (r)
+//@   property C13
+//@   nopanic
+//@   ensures[spec] r <==> (c >= 144 && c <= 159)
+//@ func isFixStr(c) (r)
+//@   property C13
+//@   nopanic
+//@   ensures[spec] r <==> (c >= 160 && c <= 191)
+//@ func isPositiveFix(c) (r)
+//@   property C13
+//@   nopanic
+//@   ensures[spec] r <==> c <= 127
+//@ func isNegativeFix(c) (r)
+//@   property C13
+//@   nopanic
+//@   ensures[spec] r <==> c >= 224
+//@ func isMapCode(c) (r)
+//@   property C13
+//@   nopanic
+//@   ensures[spec] r <==> ((c >= 128 && c <= 143) || c == 222 || c == 223)
+//@ func isArrayCode(c) (r)
+//@   property C13
+//@   nopanic
+//@   ensures[spec] r <==> ((c >= 144 && c <= 159) || c == 220 || c == 221)
+//@ func isStringCode(c) (r)
+//@   property C13
+//@   nopanic
+//@   ensures[spec] r <==> ((c >= 160 && c <= 191) || c == 217 || c == 218 || c == 219)
+//@ func isIntegerCode(c) (r)
+//@   property C13
+//@   nopanic
+//@   ensures[spec] r <==> (c <= 127 || c >= 224 || (c >= 204 && c <= 211))
+//@ func isFloatCode(c) (r)
+//@   property C13
+//@   nopanic
+//@   ensures[spec] r <==> (c == 202 || c == 203)
+//@ func isNumericCode(c) (r)
+//@   property C13
+//@   nopanic
+//@   ensures[spec] r <==> (c <= 127 || c >= 224 || (c >= 202 && c <= 211))
